@@ -1,10 +1,16 @@
 // Shared pieces of the propagation replayers (C09 W3C trace context, C16 B3 / Jaeger).
 //
 //  * Carrier: a TextMapCarrier whose Get() returns NON-NUL-terminated string_views into heap
-//    buffers of exactly the value's size (a fresh buffer per call), so that AddressSanitizer sees
-//    any read beyond the value; an absent/empty value is a zero-length view at the END of a heap
-//    block.  All buffers are scribbled over and freed (Release) right after the propagator
+//    buffers (a fresh buffer per call).  Rotating per concretisation (Adversary): the buffer has
+//    exactly the value's size, so that AddressSanitizer sees any read beyond the value (an
+//    absent/empty value is a zero-length view at the END of a heap block); or the value is followed,
+//    inside the buffer, by adversarial bytes ('1', hex digits, separators) with / without a final NUL,
+//    so that reading on to a terminator yields a WRONG RESULT that the comparison catches without a
+//    sanitizer.  All buffers are scribbled over and freed (Release) right after the propagator
 //    returned and BEFORE the result is looked at.
+//  * forked_loop: the cases run in a forked child; when the code under test crashes (sanitizer
+//    report, signal) the crash is reported with the concrete input and a new child goes on with
+//    the next case - a crash never hides the other cases and never breaks the check.
 //  * Rng: splitmix64, seeded from (VERIF_SEED, case id, instance) - concretisation is deterministic.
 //  * Observation of a context through the public API only (trace::GetSpan, Context::GetValue).
 //  * The digit tables kLower/kUpper are where "lower-case hex" lives: expectations arrive as digit
@@ -22,6 +28,9 @@
 #include <string>
 #include <utility>
 #include <vector>
+#include <cerrno>
+#include <sys/mman.h>
+#include <sys/wait.h>
 #include <unistd.h>
 
 #include <nlohmann/json.hpp>
@@ -34,6 +43,7 @@
 #include "opentelemetry/trace/trace_state.h"
 
 extern "C" void __sanitizer_set_death_callback(void (*)(void));
+extern "C" int __lsan_do_recoverable_leak_check(void);
 
 namespace vh
 {
@@ -106,9 +116,27 @@ inline std::string lower(std::string s)
   return s;
 }
 
+// What lies right behind a view handed out by Carrier::Get (set per concretisation by the replay loop):
+//   0  nothing: the heap buffer has exactly the value's size (AddressSanitizer sees any over-read)
+//   1  a few adversarial bytes ('1', hex digits, separators ...) and then a NUL, inside the same buffer:
+//      code that reads on to a terminator (strlen, atoi, C-string regex ...) gets a WRONG RESULT here, which
+//      the comparison with the spec's expectation catches even without a sanitizer
+//   2  adversarial bytes and no NUL: the over-read runs through them into the redzone
+struct Adversary
+{
+  unsigned mode = 0;
+  uint64_t seed = 0;
+};
+inline Adversary &adversary()
+{
+  static Adversary a;
+  return a;
+}
+
 class Carrier : public otel::context::propagation::TextMapCarrier
 {
 public:
+  Carrier() : mode_(adversary().mode), lcg_(adversary().seed | 1) {}
   ~Carrier() override { Release(); }
   // test side
   void Put(const std::string &key, const std::string &bytes) { vals_.emplace_back(lower(key), bytes); }
@@ -131,18 +159,36 @@ public:
     for (auto &kv : vals_)
       if (kv.first == k)
         v = &kv.second;
-    if (v == nullptr || v->empty())
+    size_t n = v ? v->size() : 0;
+    if (mode_ == 0)
     {
-      size_t pad = 1 + (gets % 7);
-      char *p    = static_cast<char *>(malloc(pad));
-      memset(p, 'Z', pad);
-      bufs_.emplace_back(p, pad);
-      return otel::nostd::string_view(p + pad, 0);
+      if (n == 0)
+      {
+        // absent / empty: a zero-length view at the END of a heap block
+        size_t pad = 1 + (gets % 7);
+        char *p    = static_cast<char *>(malloc(pad));
+        memset(p, 'Z', pad);
+        bufs_.emplace_back(p, pad);
+        return otel::nostd::string_view(p + pad, 0);
+      }
+      char *p = static_cast<char *>(malloc(n));
+      memcpy(p, v->data(), n);
+      bufs_.emplace_back(p, n);
+      return otel::nostd::string_view(p, n);
     }
-    char *p = static_cast<char *>(malloc(v->size()));
-    memcpy(p, v->data(), v->size());
-    bufs_.emplace_back(p, v->size());
-    return otel::nostd::string_view(p, v->size());
+    // the value, then adversarial bytes, then (mode 1) a NUL - all inside one buffer
+    static const char kTail[] = "1d0af7-:1,=10 e9-1";
+    size_t t     = 1 + next() % 6;
+    size_t total = n + t + (mode_ == 1 ? 1 : 0);
+    char *p      = static_cast<char *>(malloc(total));
+    if (n)
+      memcpy(p, v->data(), n);
+    for (size_t i = 0; i < t; ++i)
+      p[n + i] = kTail[next() % (sizeof(kTail) - 1)];
+    if (mode_ == 1)
+      p[n + t] = '\0';
+    bufs_.emplace_back(p, total);
+    return otel::nostd::string_view(p, n);
   }
   void Set(otel::nostd::string_view key, otel::nostd::string_view value) noexcept override
   {
@@ -160,6 +206,13 @@ public:
   }
 
 private:
+  uint64_t next() const
+  {
+    lcg_ = lcg_ * 6364136223846793005ull + 1442695040888963407ull;
+    return lcg_ >> 33;
+  }
+  unsigned mode_;
+  mutable uint64_t lcg_;
   std::vector<std::pair<std::string, std::string>> vals_;
   std::vector<std::pair<std::string, std::string>> sets_;
   mutable std::vector<std::pair<char *, size_t>> bufs_;
@@ -436,6 +489,16 @@ inline std::string &current_case()
   static std::string s;
   return s;
 }
+struct SharedProgress
+{
+  volatile long idx;       // item the child is working on
+  volatile int reported;   // the child's death handler printed the crash line
+};
+inline SharedProgress *&progress()
+{
+  static SharedProgress *p = nullptr;
+  return p;
+}
 inline void on_death()
 {
   static bool done = false;
@@ -444,6 +507,8 @@ inline void on_death()
     done = true;
     fputs(current_case().c_str(), stdout);
     fputs("\n", stdout);
+    if (progress())
+      progress()->reported = 1;
   }
   fflush(stdout);
 }
@@ -461,6 +526,76 @@ inline void install_death_callback()
   __sanitizer_set_death_callback(on_death);
   for (int sig : {SIGABRT, SIGSEGV, SIGBUS, SIGFPE, SIGILL})
     signal(sig, on_signal);
+}
+// Runs body(i) for i in [0, n) in a forked child.  If the child dies (the code under test crashed on
+// item i: the death handler has printed {"id", "v":"crash", "concrete"}), the parent - which never runs
+// the code under test - forks a new child that goes on with item i + 1.  After max_crashes crashes the
+// rest is skipped and counted ({"skipped": k}).  id_of(i) names item i if the child could not.
+template <class Body, class IdOf>
+inline int forked_loop(size_t n, Body body, IdOf id_of, size_t max_crashes = 24)
+{
+  progress() = static_cast<SharedProgress *>(
+      mmap(nullptr, sizeof(SharedProgress), PROT_READ | PROT_WRITE, MAP_SHARED | MAP_ANONYMOUS, -1, 0));
+  if (progress() == MAP_FAILED)
+  {
+    perror("harness: mmap");
+    return 9;
+  }
+  size_t start = 0, crashes = 0;
+  while (start < n)
+  {
+    fflush(stdout);
+    fflush(stderr);
+    progress()->idx      = long(start);
+    progress()->reported = 0;
+    pid_t pid            = fork();
+    if (pid < 0)
+    {
+      perror("harness: fork");
+      return 9;
+    }
+    if (pid == 0)
+    {
+      for (size_t i = start; i < n; ++i)
+      {
+        progress()->idx = long(i);
+        body(i);
+      }
+      current_case().clear();
+      fflush(stdout);
+      int leaks = __lsan_do_recoverable_leak_check();
+      fflush(stderr);
+      _exit(leaks ? 5 : 0);
+    }
+    int st = 0;
+    while (waitpid(pid, &st, 0) < 0 && errno == EINTR)
+      ;
+    if (WIFEXITED(st) && WEXITSTATUS(st) == 0)
+      break;
+    if (WIFEXITED(st) && WEXITSTATUS(st) == 9)
+      return 9;  // the harness itself gave up (unknown class ...)
+    if (WIFEXITED(st) && WEXITSTATUS(st) == 5)
+    {
+      json j = {{"id", -1}, {"v", "crash"}, {"concrete", "LeakSanitizer: memory leaked while running the cases (see stderr)"}};
+      std::cout << j.dump() << std::endl;
+      break;
+    }
+    size_t at = size_t(progress()->idx);
+    if (!progress()->reported)
+    {
+      json j = {{"id", id_of(at)}, {"v", "crash"}, {"concrete", nullptr}, {"status", st}};
+      std::cout << j.dump() << std::endl;
+    }
+    ++crashes;
+    start = at + 1;
+    if (crashes >= max_crashes && start < n)
+    {
+      json j = {{"skipped", n - start}, {"after_crashes", crashes}};
+      std::cout << j.dump() << std::endl;
+      break;
+    }
+  }
+  return 0;
 }
 inline void set_current(long id, int inst, const json &concrete)
 {
@@ -493,9 +628,10 @@ typedef bool (*SiteFn)(const json &cs, ByteClass &cls, unsigned &npos, int &sep,
 inline int replay_cases(const char *path, uint64_t seed, int n, RunFn run_rt, RunFn run_x, SiteFn sweep_site)
 {
   auto cases = read_cases(path);
-  for (auto &cs : cases)
-  {
+  int rc     = forked_loop(cases.size(), [&](size_t ci) {
+    const json &cs = cases[ci];
     long id      = cs["id"].get<long>();
+    long seed_id = cs.value("seed_id", id);  // a canary is concretised exactly like the case it was copied from
     bool rt      = cs["k"] == "rt";
     json out     = {{"id", id}, {"v", "ok"}, {"n", n}};
     int valid = 0, unchanged = 0, devs = 0;
@@ -510,7 +646,7 @@ inline int replay_cases(const char *path, uint64_t seed, int n, RunFn run_rt, Ru
       if (!sweep_site(cs, cls, npos, sep, name))
       {
         fprintf(stderr, "harness: sweep case %ld has no single bad-byte site\n", id);
-        return 9;
+        exit(9);
       }
       bool full = cs["sweep"] == "full";
       unsigned bytes = 0;
@@ -520,7 +656,7 @@ inline int replay_cases(const char *path, uint64_t seed, int n, RunFn run_rt, Ru
           continue;
         ++bytes;
         for (unsigned p = 0; p < npos; ++p)
-          if (full || p == (b + unsigned(seed) + unsigned(id)) % npos)
+          if (full || p == (b + unsigned(seed) + unsigned(seed_id)) % npos)
             runs.push_back({unsigned(runs.size()), b, p});
       }
       out["sweep"] = {{"site", name}, {"bytes", bytes}, {"positions", npos}, {"runs", runs.size()}};
@@ -536,12 +672,14 @@ inline int replay_cases(const char *path, uint64_t seed, int n, RunFn run_rt, Ru
       sweep().on    = run[1] < 256;
       sweep().byte  = run[1];
       sweep().pos   = run[2];
-      Rng r(mix(seed, uint64_t(id), uint64_t(inst)));
+      Rng r(mix(seed, uint64_t(seed_id), uint64_t(inst)));
+      adversary().mode = unsigned((uint64_t(inst) + uint64_t(seed_id)) % 3);
+      adversary().seed = r.next();
       json res = rt ? run_rt(id, inst, cs, r) : run_x(id, inst, cs, r);
       if (sweep().on && sweep().used != 1)
       {
         fprintf(stderr, "harness: sweep byte used %u times in case %ld\n", sweep().used, id);
-        return 9;
+        exit(9);
       }
       if (res.value("kind", "") == "valid")
         ++valid;
@@ -569,8 +707,9 @@ inline int replay_cases(const char *path, uint64_t seed, int n, RunFn run_rt, Ru
     out["valid"]     = valid;
     out["unchanged"] = unchanged;
     std::cout << out.dump() << std::endl;
-  }
-  current_case().clear();
+  }, [&](size_t ci) { return cases[ci]["id"].get<long>(); });
+  if (rc != 0)
+    return rc;
   std::cout << "{\"done\":" << cases.size() << "}" << std::endl;
   return 0;
 }
